@@ -330,23 +330,29 @@ class SFTPServer(BaseSFTP, SubsystemHandler):
 
         sum_out = bytes()
         offset = start
-        while offset < start + length:
+        eof = False
+        while offset < start + length and not eof:
             blocklen = min(block_size, start + length - offset)
-            # don't try to read more than about 64KB at a time
-            chunklen = min(blocklen, 65536)
             count = 0
             hash_obj = alg()
             while count < blocklen:
-                data = f.read(offset, chunklen)
+                # don't try to read more than about 64KB at a time
+                chunklen = min(blocklen - count, 65536)
+                data = f.read(offset + count, chunklen)
                 if not isinstance(data, bytes):
                     self._send_status(
                         request_number, data, "Unable to hash file"
                     )
                     return
+                if len(data) == 0:
+                    # end of file: the range stops here
+                    eof = True
+                    break
                 hash_obj.update(data)
                 count += len(data)
-                offset += count
-            sum_out += hash_obj.digest()
+            if count > 0:
+                sum_out += hash_obj.digest()
+            offset += blocklen
 
         msg = Message()
         msg.add_int(request_number)
